@@ -28,12 +28,12 @@ def run(ctx, R):
     declare(R, {**delivery.RULES, **flow.RULES}, RULES, FLOORS)
     M = ctx.model
     core = [c for c in M.nodes if c.module.name in ('streamz.core', 'streamz.sinks')]
-    delivery.check_single_consumer(ctx, R, core)
-    delivery.check_serial_drain(ctx, R, core)
-    delivery.check_fifo_end(ctx, R, core)
-    delivery.check_swap_atomic(ctx, R, core)
-    delivery.check_atomic_rmw(ctx, R, [(c, f) for c in core for f in c.methods.values()])
-    delivery.check_awaitable_share(ctx, R, core)
-    delivery.check_emit_sig(ctx, R, core)
+    R.run(delivery.check_single_consumer, ctx, R, core)
+    R.run(delivery.check_serial_drain, ctx, R, core)
+    R.run(delivery.check_fifo_end, ctx, R, core)
+    R.run(delivery.check_swap_atomic, ctx, R, core)
+    R.run(delivery.check_atomic_rmw, ctx, R, [(c, f) for c in core for f in c.methods.values()])
+    R.run(delivery.check_awaitable_share, ctx, R, core)
+    R.run(delivery.check_emit_sig, ctx, R, core)
     flow.check_bound_plumb(ctx, R)        # map_async's slot wait is also what keeps its jobs in arrival order
     delivery.check_partition_timer(ctx, R)  # partition with a timeout
